@@ -164,6 +164,7 @@ structure Impl where
   kmsgLines : List (Option Nat × String) := []
   uuids : List String := []
   attempted : List Nat := []           -- victims in order (uuid xattrs; kmsg for dry)
+  emptyKills : List Nat := []          -- cgroups whose cgroup.kill was written while they held no process (stale stream)
 deriving Inhabited
 
 def decimal? (s : String) : Option Int :=
@@ -257,6 +258,7 @@ def implOfTick (ms : List Meta) (tk : Json) : Impl := Id.run do
         evs := evs.push (.write cg .freeze rc); writes := writes.push rc
       else if f == Generated.fileCgroupKill then
         evs := evs.push (.write cg .kill rc); writes := writes.push rc
+        if rc ≥ 0 && jhas e "nprocs" && jint e "nprocs" == 0 then im := { im with emptyKills := cg :: im.emptyKills }
       else im := { im with unknown := im.unknown ++ ["write:" ++ f] }
     else if ev == "pidfd_open" then
       evs := evs.push (.pidfdOpen (jint e "pid") (jnat e "rc")); pidfd := pidfd.push (jnat e "rc")
@@ -440,7 +442,7 @@ def diverge : List View → List View → Option (View × View)
   | a :: as, b :: bs => if a.id == b.id then diverge as bs else some (a, b)
   | _, _ => none
 
-def attemptSucceeded (evs : List Ev) : List (Nat × Bool) := Id.run do
+def attemptSucceeded (evs : List Ev) (emptyKills : List Nat := []) : List (Nat × Bool) := Id.run do
   -- per wet attempt (uuid xattr starts it): did it signal / kernel-kill anything
   let mut out : Array (Nat × Bool) := #[]
   for e in evs do
@@ -449,7 +451,9 @@ def attemptSucceeded (evs : List Ev) : List (Nat × Bool) := Id.run do
       if isUuid n then
         if out.isEmpty || out.back!.1 != cg then out := out.push (cg, false)
     | .kill _ rc => if rc == 0 && !out.isEmpty then out := out.modify (out.size - 1) (fun (c, _) => (c, true))
-    | .write _ f rc => if f == .kill && rc ≥ 0 && !out.isEmpty then out := out.modify (out.size - 1) (fun (c, _) => (c, true))
+    | .write cg f rc =>
+      -- a cgroup.kill written into a cgroup that holds no process signals nobody
+      if f == .kill && rc ≥ 0 && !out.isEmpty && !(emptyKills.contains cg) then out := out.modify (out.size - 1) (fun (c, _) => (c, true))
     | _ => pure ()
   return out.toList
 
@@ -466,7 +470,7 @@ def holdsC03Tick (sc : Json) (c : TickCtx) : List String := Id.run do
   let cfg := c.cfg
   let leaves := (c.roots.filter (·.info.eligible)).flatMap (leavesOf cfg [])
   let att : List (Nat × Bool) :=
-    if cfg.dry then c.impl.attempted.map (fun i => (i, true)) else attemptSucceeded c.impl.evs
+    if cfg.dry then c.impl.attempted.map (fun i => (i, true)) else attemptSucceeded c.impl.evs c.impl.emptyKills
   let mut viol : List String := []
   -- (a) every attempted cgroup is a candidate leaf
   for (id, _) in att do
@@ -581,7 +585,7 @@ def holdsC17Tick (sc : Json) (c : TickCtx) : List String := Id.run do
     | none => pure ()
     -- counters
     let nSig := (s.evs.filter fun e => match e with | .kill _ rc => rc == 0 | _ => false).length
-    let kernelOk := s.evs.any fun e => match e with | .write _ f rc => f == .kill && rc ≥ 0 | _ => false
+    let kernelOk := s.evs.any fun e => match e with | .write cg f rc => f == .kill && rc ≥ 0 && !(c.impl.emptyKills.contains cg) | _ => false
     for e in s.evs do
       match e with
       | .setxattr cg n (.num v) old rc =>
@@ -738,7 +742,7 @@ def handle (j : Json) : Json := Id.run do
         let (mevs, mret, rankOk) := modelTick sc c open_
         -- swap stream: the world changes while run() executes, which the model does not describe; only the property clauses
         -- are evaluated on such a trace
-        let swapped := jhas sc "swap_at_kill" && jbool run "swapped"
+        let swapped := (jhas sc "swap_at_kill" && jbool run "swapped") || (jhas sc "empty_at_attempt" && !(jarr run "emptied").isEmpty)
         let same := swapped || (sameEvents mevs c.impl.evs && some mret == retOfStr c.ret && c.impl.unknown.isEmpty && rankOk)
         if !same then
           accepts := false
